@@ -189,6 +189,53 @@ def rule_b(R, ctx):
         R.ob("C02.b", sw, site, ok, why, cs.loc())
 
 
+def rule_b3(R, ctx, rid="C02.b3"):
+    Y = ctx.yrs
+    sw = Y.fn("yrs::update::BlockPicker::switch")
+    v = FnView(sw)
+    R.rule(rid, "R-PROV+R-GUARD the rest of a client's queue is stashed with the block that could not be integrated: in "
+                "BlockPicker::switch, for every block drained from the stack, the queue that goes into the stash is looked up under "
+                "THAT block's client — store.clients.remove(&client), or, when the block's client is the one being iterated, the "
+                "`latest` queue taken under `latest.0 == client` with client = Block::client(drained block) — and is stored under the "
+                "same client; comparing with the client of the missing dependency instead leaves the later blocks of that client in "
+                "the iteration, where each further failing block overwrites the stash entry of the previous one")
+
+    def of_drained(t):
+        t = simp_deep(t)
+        return term_has_call(t, "yrs::block::Block::client") and term_has_call(t, "re:Iterator>::next$")
+    rem = [c for c in sw.calls_to("re:^std::collections::HashMap::remove$") if field_path(simp_deep(v.arg(c, 0)))[-2:] == ["store", "clients"]]
+    R.floor(rid, "store.clients.remove in BlockPicker::switch", len(rem), 1)
+    for cs, site in ordinal_sites(rem):
+        R.ob(rid, sw, "queue:" + site, of_drained(v.arg(cs, 1, 12)), "queue looked up under %s" % sshow(simp_deep(v.arg(cs, 1, 12)), 5), cs.loc())
+    takes = [c for c in sw.calls_to("re:^std::mem::take$") if term_has_field(simp_deep(v.arg(c, 0, 12)), "BlockPicker.latest")]
+    R.floor(rid, "take of the latest queue in BlockPicker::switch", len(takes), 1)
+    for cs, site in ordinal_sites(takes):
+        ok = False
+        seen = []
+        for l in v.guards(cs.bb):
+            t = simp(l.term)
+            if t[0] == "call" and re.search(r"PartialEq(<.*>)?>?::eq$", t[1]) and l.polarity is True and len(t[2]) == 2:
+                a, b = simp_deep(t[2][0]), simp_deep(t[2][1])
+                seen.append("%s == %s" % (sshow(a, 4), sshow(b, 4)))
+                if (term_has_field(a, "BlockPicker.latest") and of_drained(b)) or (term_has_field(b, "BlockPicker.latest") and of_drained(a)):
+                    ok = True
+            elif t[0] == "bin" and t[1] == "Eq" and l.polarity is True:
+                a, b = simp_deep(t[2]), simp_deep(t[3])
+                seen.append("%s == %s" % (sshow(a, 4), sshow(b, 4)))
+                if (term_has_field(a, "BlockPicker.latest") and of_drained(b)) or (term_has_field(b, "BlockPicker.latest") and of_drained(a)):
+                    ok = True
+        R.ob(rid, sw, "latest:" + site, ok, "the latest queue is taken under latest.0 == client of the drained block" if ok else
+             "the latest queue is taken under %s — not a comparison of latest's client with the drained block's client" % (seen or "no comparison"), cs.loc())
+    ins = [c for c in sw.calls_to("re:^std::collections::HashMap::insert$") if field_path(simp_deep(v.arg(c, 0)))[-2:] == ["unapplicable", "clients"]]
+    for cs, site in ordinal_sites(ins):
+        val = simp_deep(v.arg(cs, 2, 12))
+        alts = val[1] if val[0] == "phi" else (val,)
+        from_store = any(term_has_call(a, "re:^std::collections::HashMap::remove$") for a in alts)
+        from_latest = any(term_has_call(a, "re:^std::mem::take$") for a in alts)
+        R.ob(rid, sw, "stash:" + site, of_drained(v.arg(cs, 1, 12)) and from_store and from_latest,
+             "stashed under %s; queue from store.clients: %s, from latest: %s" % (sshow(simp_deep(v.arg(cs, 1, 12)), 5), from_store, from_latest), cs.loc())
+
+
 SV_MUTATORS = ("re:^yrs::state_vector::StateVector::(set_min|set_max|inc_by|insert|remove|merge|set)$",
                "re:^std::collections::HashMap::(insert|remove|entry|get_mut|clear)$")
 
@@ -509,6 +556,7 @@ def check(ctx, R):
     R.run("C02.a", rule_a, ctx)
     R.run("C02.b", rule_b, ctx)
     R.run("C02.b2", rule_b2, ctx)
+    R.run("C02.b3", rule_b3, ctx)
     R.run("C02.c", rule_c, ctx)
     R.run("C02.d", rule_d, ctx)
     R.run("C02.f", rule_f, ctx)
